@@ -401,6 +401,44 @@ theorem lookup_mem {α β : Type} [BEq α] [LawfulBEq α] {l : List (α × β)} 
       injection h with h; subst h; simp
     · exact List.mem_cons_of_mem _ (ih h)
 
+/-! ### the driver's executable scheduler is the transition system -/
+
+/-- `enabledB` (what the driver's `simulate` / `deadlockReachable` use) decides `Enabled strictWP` -/
+theorem enabledB_iff (s : State Lock) (i : Nat) : enabledB s i = true ↔ Enabled strictWP s i := by
+  unfold enabledB Enabled
+  cases hsi : s[i]? with
+  | none => simp
+  | some t =>
+    simp only
+    cases hp : t.prog with
+    | nil => simp
+    | cons e rest =>
+      cases e with
+      | acq l m =>
+        cases m with
+        | R =>
+          simp only [Bool.and_eq_true, List.all_eq_true, Bool.not_eq_true', List.any_eq_false, strictWP]
+          constructor
+          · rintro ⟨h1, h2⟩
+            refine ⟨fun u hu => ?_, ?_⟩
+            · have := h1 u hu
+              simpa using this
+            · rintro ⟨u, hu, hh⟩
+              have := h2 u hu
+              rw [hh] at this
+              simp at this
+          · rintro ⟨h1, h2⟩
+            refine ⟨fun u hu => ?_, fun u hu => ?_⟩
+            · have := h1 u hu
+              simpa using this
+            · intro hh
+              apply h2
+              exact ⟨u, hu, by simpa using hh⟩
+        | W =>
+          simp [List.all_eq_true]
+      | rel l => simp
+      | mark k => simp
+
 /-! ### the model can deadlock when the discipline is broken (non-vacuity) -/
 
 theorem deadlock_example_inversion : ∃ s, Reach (strictWP (L := Lock))
